@@ -1,5 +1,5 @@
 CONSTANTS
-  OBUG = "none"
+  OBUG = "no_too_small_guard"
   Thr16 = 5
   ThrN = 2
   Thr32 = 60
